@@ -55,7 +55,9 @@ def classes(rnd, n):
 def shards(tier, seed):
     z = SIZES[tier]
     cases = PW.build_cases(seed, "c02", z["pairs"], per_pair_configs=z["cfgs"], classes=classes)
-    return [{"kind": "pairs", "cases": c} for c in PW.chunk(cases, 64 if tier == "thorough" else 16)]
+    out = [{"kind": "pairs", "cases": c} for c in PW.chunk(cases, 64 if tier == "thorough" else 16)]
+    out.append({"kind": "pairs", "cases": PW.same_string_cases(seed, "c02", n_bgs=6 if tier == "quick" else 24)})
+    return out
 
 
 def judge(case, obs, rec):
@@ -98,7 +100,16 @@ def judge(case, obs, rec):
 
 def work(shard, rec):
     from cmv.lib import Lib
-    PW.run_cases(shard, rec, Lib(), [judge])
+    lib = Lib()
+    PW.run_cases(shard, rec, lib, [judge], on_skip=composite_skip)
+
+
+def composite_skip(case, obs, rec):
+    """'after compositing any transparency': a composite that is not the source-over blend over the pair's own background
+    (beyond the 1.5 units C13 grants) means the colour that is kept / fixed is not the original text colour."""
+    if obs["skip"] == "composite outside C13 tolerance":
+        rec.violation(f"text={case['text']!r} bg={case['bg']!r}: the library works on composite {obs.get('text_rgb')} but the text over its own background "
+                      f"is {obs.get('exact')}", {k: case[k] for k in ("text", "bg", "tk", "bk", "t", "b")} | {"mode": 1, "large": False, "vr": False, "observed": "composite", "orig": case["t"]})
 
 
 def replay(case):
